@@ -5,20 +5,25 @@ package main
 import (
 	"bytes"
 	"encoding/binary"
+	"encoding/json"
+	"fmt"
 	"io"
 	"log"
 	"math"
+	"net"
 	"runtime"
 	"strconv"
 	"strings"
 	"sync"
 	"sync/atomic"
+	"time"
 
 	"google.golang.org/protobuf/proto"
 	"google.golang.org/protobuf/types/known/wrapperspb"
 	"qchen.fun/fatchoy"
 	"qchen.fun/fatchoy/codec"
 	"qchen.fun/fatchoy/packet"
+	"qchen.fun/fatchoy/qnet"
 	"qchen.fun/fatchoy/x/cipher"
 	. "verifharness/common"
 )
@@ -424,6 +429,74 @@ func concurrentBodies(seed uint64, g, iters int) (code int, checked int64) {
 	return int(atomic.LoadInt64(&bad)), atomic.LoadInt64(&n)
 }
 
+// ---- the library's own request/response helpers (qnet/util.go) over a pipe --------------------
+// pipeEndpoint sends through a codec onto a connection, as a connection's writer does
+type pipeEndpoint struct {
+	recorder
+	conn net.Conn
+	enc  codec.Encoder
+}
+
+func (e *pipeEndpoint) SendPacket(p fatchoy.IPacket) error {
+	_, err := e.enc.WritePacket(e.conn, nil, p)
+	return err
+}
+
+// pipeExchange(codec, cmd, mode, arg): the client calls qnet.RequestProtoMessage(cmd, "ping");
+// the server reads the request with the codec, binds it to its endpoint and answers with
+// mode 0 Refuse(arg = code) | 1 ReplyWith(cmd, arg = a proto gov) | 2 RefuseWith(cmd+1, code).
+// observed (1 #marshalled response) | (0 #error text) | (9) stuck or panicked
+func pipeExchange(cd int, cmd int32, mode int, arg Sx) Sx {
+	qnet.RequestReadTimeout = 5
+	var enc codec.Encoder
+	if cd == 1 {
+		enc = codec.NewV1Encoder(0)
+	} else {
+		enc = codec.NewV2Encoder(0)
+	}
+	cc, sc := net.Pipe()
+	defer cc.Close()
+	defer sc.Close()
+	done := make(chan Sx, 1)
+	go func() { // server
+		Catch(func() {
+			sc.SetDeadline(time.Now().Add(5 * time.Second))
+			req := packet.Make()
+			if err := enc.ReadPacket(sc, nil, req); err != nil {
+				return
+			}
+			req.SetEndpoint(&pipeEndpoint{conn: sc, enc: enc})
+			switch mode {
+			case 0:
+				req.Refuse(int32(arg.Int64()))
+			case 1:
+				req.ReplyWith(cmd, goValue(arg))
+			default:
+				req.RefuseWith(cmd+1, int32(arg.Int64()))
+			}
+		})
+	}()
+	go func() { // client
+		res := Ints(9)
+		Catch(func() {
+			resp := &wrapperspb.StringValue{}
+			cc.SetWriteDeadline(time.Now().Add(5 * time.Second))
+			if err := qnet.RequestProtoMessage(cc, enc, cmd, wrapperspb.String("ping"), resp); err != nil {
+				res = List(Int(0), Str(err.Error()))
+				return
+			}
+			res = List(Int(1), Bytes(mustMarshal(resp)))
+		})
+		done <- res
+	}()
+	select {
+	case r := <-done:
+		return r
+	case <-time.After(12 * time.Second):
+		return Ints(9)
+	}
+}
+
 // recording endpoint
 type recorder struct {
 	sent []fatchoy.IPacket
@@ -484,6 +557,9 @@ func run1(in Sx) Sx {
 		var ec, dc cipher.BlockCryptor
 		if in.At(3).AsBool() {
 			ec, dc = cipher.NewAESCFB(aesKey, aesIV), cipher.NewAESCFB(aesKey, aesIV)
+		}
+		if in.At(3).AsInt() == 2 { // the receiver has no cipher
+			dc = nil
 		}
 		p := hdrOf(in.At(4)).packet()
 		what := in.At(5)
@@ -659,6 +735,11 @@ func run1(in Sx) Sx {
 			return List(Int(0))
 		}
 		q := e1.sent[len(e1.sent)-1]
+		// the exported views nobody else looks at: the request is still bound to its endpoint, the
+		// reply is not bound to any, and both print
+		if p.Endpoint() != fatchoy.MessageEndpoint(e1) || q.Endpoint() != nil || p.String() == "" || q.(*packet.Packet).String() == "" {
+			return List(Int(0))
+		}
 		first := []Sx{Int(1), Int(int64(len(e1.sent))), hdrOfPkt(q).sx(), bodySx(q.Body()), Int(int64(q.Errno())),
 			res(func() Sx { return Bytes(q.BodyToBytes()) })}
 		// the endpoint only queued the reply; the request object is recycled for the next message
@@ -708,11 +789,23 @@ func run1(in Sx) Sx {
 		if pn || !ok {
 			return List(Int(0))
 		}
+		// DecodeTo a StringValue first (it leaves the packet alone), then Decode()
+		dt := Ints(2)
+		Catch(func() {
+			msg := &wrapperspb.StringValue{}
+			if err := q.DecodeTo(msg); err != nil {
+				dt = Ints(0)
+				return
+			}
+			dt = List(Int(1), Bytes(mustMarshal(msg)))
+		})
 		var derr error
 		if pn, _ := Catch(func() { derr = q.Decode() }); pn {
-			return List(Int(1), Int(2), bodySx(q.Body()))
+			return List(Int(1), Int(2), bodySx(q.Body()), dt)
 		}
-		return List(Int(1), Bool(derr == nil), bodySx(q.Body()))
+		return List(Int(1), Bool(derr == nil), bodySx(q.Body()), dt)
+	case 12:
+		return pipeExchange(in.At(1).AsInt(), int32(in.At(2).Int64()), in.At(3).AsInt(), in.At(4))
 	}
 	panic("bad scenario")
 }
@@ -903,6 +996,13 @@ func gen(a Args, out *Out) {
 		scale = 20
 	}
 	emit := func(kind string, in Sx) { out.Case(kind, true, in, run(in)) }
+	catchViol := func(sig, what string, in Sx, f func() bool) {
+		out.GoChecked++
+		ok := false
+		if pn, _ := Catch(func() { ok = f() }); pn || !ok {
+			out.Violation(sig, what, List(in, List()))
+		}
+	}
 
 	// scenario 0: every integer kind at its boundaries, then random values of every kind
 	for k := 0; k < 10; k++ {
@@ -1151,6 +1251,84 @@ func gen(a Args, out *Out) {
 			emit("refuse", List(Int(4), h.sx(), Int(2), Int(int64(ack)), Int(genErrno(rng))))
 		}
 	}
+	// the error branches of the marshal layer: a receiver without the cipher, and senders that set
+	// the compression / encryption marks themselves on a body the codec then leaves alone
+	for i := 0; i < 24*scale; i++ {
+		h := genHdr(rng, true)
+		cd := 1 + rng.Intn(2)
+		g := List(Int(5), Str([]string{"hello", "0", "", "héllo wörld", "12345"}[rng.Intn(5)]))
+		switch i % 3 {
+		case 0:
+			emit("wire-nocipher", List(Int(3), Int(int64(cd)), Int(4096), Int(2), h.sx(), List(Int(1), g)))
+		case 1:
+			h.flg |= uint8(fatchoy.PFlagCompressed)
+			emit("wire-premarked", List(Int(3), Int(int64(cd)), Int(4096), Bool(rng.Bool()), h.sx(), List(Int(1), g)))
+		default:
+			h.flg |= uint8(fatchoy.PFlagEncrypted)
+			emit("wire-premarked", List(Int(3), Int(int64(cd)), Int(4096), Bool(rng.Bool()), h.sx(), List(Int(1), g)))
+		}
+	}
+	// scenario 12: the library's own helpers (qnet/util.go) over a pipe: request, refusal / reply
+	for i := 0; i < 40*scale; i++ {
+		cd := 1 + rng.Intn(2)
+		cmd := int64(rng.PickI64(1, 77, 1001, idString, idPingReq, math.MaxInt32-1, -5))
+		switch i % 4 {
+		case 0, 1:
+			emit("pipe-refuse", List(Int(12), Int(int64(cd)), Int(cmd), Int(0), Int(genErrno(rng))))
+		case 2:
+			emit("pipe-reply", List(Int(12), Int(int64(cd)), Int(cmd), Int(1), protoGov(0, []byte(texts[rng.Intn(len(texts))]))))
+		default:
+			emit("pipe-refuse-with", List(Int(12), Int(int64(cd)), Int(cmd), Int(2), Int(genErrno(rng))))
+		}
+	}
+	// values outside the supported domain: whatever SetBody / New ACCEPT (return normally) must
+	// then have a text and a wire form; pinned today: every one of these is rejected with a panic
+	// and leaves the body as it was
+	type myInt int32
+	unsupported := []interface{}{complex64(1), []int{1}, map[string]int{}, struct{}{}, (*int)(nil), uintptr(5), [4]byte{},
+		fmt.Errorf("x"), time.Duration(5), myInt(7), []string{"a"}, rune(0), json.Number("1"), []interface{}{1.0}, make(chan int)}
+	for _, v := range unsupported {
+		v := v
+		if _, isRune := v.(int32); isRune { // rune is int32: supported
+			continue
+		}
+		catchViol("C07/go/accepted-without-forms", fmt.Sprintf("SetBody/New accepted a %T but the packet then has no text or wire form", v), List(Int(0), Ints(0)), func() bool {
+			p := packet.Make()
+			p.SetBody("before")
+			accepted, _ := Catch(func() { p.SetBody(v) })
+			accepted = !accepted
+			if !accepted {
+				out.Count("unsupported value rejected by SetBody (panic)")
+				if s, ok := p.Body().(string); !ok || s != "before" {
+					return false
+				}
+			} else {
+				p.BodyToString()
+				p.BodyToBytes()
+			}
+			var q *packet.Packet
+			if pn, _ := Catch(func() { q = packet.New(1, 1, 0, v) }); !pn {
+				q.BodyToString()
+				q.BodyToBytes()
+			} else {
+				out.Count("unsupported value rejected by New (panic)")
+			}
+			return true
+		})
+	}
+	// pinned, outside the statement: a body put into the exported field directly, and a message
+	// proto.Marshal refuses (invalid UTF-8 in a string field)
+	Catch(func() {
+		p := packet.Make()
+		p.Body_ = int32(5)
+		a1, _ := Catch(func() { p.BodyToInt() })
+		a2, _ := Catch(func() { p.BodyToFloat() })
+		a3, _ := Catch(func() { p.BodyToBytes() })
+		out.Note("pinned: Body_ = int32(5) set directly: BodyToInt panics=%v BodyToFloat panics=%v BodyToBytes panics=%v BodyToString=%q", a1, a2, a3, p.BodyToString())
+		p.SetBody(&wrapperspb.StringValue{Value: "\xff"})
+		b1, _ := Catch(func() { p.BodyToBytes() })
+		out.Note("pinned: a StringValue with invalid UTF-8 as body: BodyToBytes panics=%v BodyToString=%q", b1, p.BodyToString())
+	})
 	// scenario 6: the constructor with a body of any supported kind
 	for i := 0; i < 100*scale; i++ {
 		g := genGov(rng, out)
@@ -1177,7 +1355,7 @@ func gen(a Args, out *Out) {
 			g = protoGov(k, rng.Bytes(rng.Intn(12)))
 		}
 		// the oracles: is a type registered under the command, does it accept the payload
-		registered, valid := false, false
+		registered, valid, validS := false, false, false
 		Catch(func() {
 			p := h.packet()
 			p.SetBody(goValue(g))
@@ -1191,8 +1369,9 @@ func gen(a Args, out *Out) {
 			if msg := packet.CreateMessageByID(h.cmd); msg != nil {
 				valid = proto.Unmarshal(w, msg) == nil
 			}
+			validS = proto.Unmarshal(w, &wrapperspb.StringValue{}) == nil
 		})
-		emit("decode-"+kindOf(g), List(Int(5), Int(int64(1+rng.Intn(2))), h.sx(), g, Bool(registered), Bool(valid)))
+		emit("decode-"+kindOf(g), List(Int(5), Int(int64(1+rng.Intn(2))), h.sx(), g, Bool(registered), Bool(valid), Bool(validS)))
 	}
 	// large text / byte bodies: sizes around every limit the code knows (255, 1 KiB, the
 	// compression thresholds, the V1 frame limit) and beyond, locally and through both codecs
@@ -1240,13 +1419,6 @@ func gen(a Args, out *Out) {
 		nvol = 1000000
 	}
 	vr := rng.Fork()
-	catchViol := func(sig, what string, in Sx, f func() bool) {
-		out.GoChecked++
-		ok := false
-		if pn, _ := Catch(func() { ok = f() }); pn || !ok {
-			out.Violation(sig, what, List(in, List()))
-		}
-	}
 	for i := 0; i < nvol; i++ {
 		v := int64(vr.Next()) >> uint(vr.Intn(64))
 		if i < 256 {
